@@ -60,9 +60,11 @@ GLAM_SINGULAR = {
 GLAM_SINGULAR = {k: v for k, v in GLAM_SINGULAR.items() if v != 'total'}
 
 
-def short(d, n=70):
-    """A compact, position-free rendering of an operand description for keys: paths cut to their last segment,
-    dereferences and borrows dropped."""
+def short(d, n=70, canon=True):
+    """A compact, position- and name-free rendering of an operand description for keys: paths cut to their last segment,
+    dereferences and borrows dropped, and the names of locals / parameters replaced by `_` (a key must not change when a
+    local is renamed or an expression moves into a helper whose parameter has another name); fields of `self`, called
+    functions, literals and named constants stay."""
     s = re.sub(r'[A-Za-z_][A-Za-z0-9_]*::', '', d)
     s = re.sub(r'<[^<>]*>', '', s)
     s = re.sub(r'<[^<>]*>', '', s)
@@ -70,6 +72,8 @@ def short(d, n=70):
     s = re.sub(r'\(\*([A-Za-z_0-9.]+)\)', r'\1', s)
     s = re.sub(r'_\d+', '_', s)
     s = re.sub(r'\s+', '', s).replace('::', '')
+    if canon:
+        s = re.sub(r'(?<![\w.])(?!self\b)[a-z_][a-z0-9_]*(?![\w(])', '_', s)
     return s[:n]
 
 
@@ -496,10 +500,10 @@ def run_singular(R, F, A, sites_table, rule='A.singular', fn_filter=None, floor=
         good, d, why = decide(s)
         if good:
             stats['auto'] += 1
-            R.ok(rule, '%s|%s:%s|auto' % (owner_type(s.owner), s.kind, short(d, 50)), detail={'op': s.opname, 'operand': d[:200], 'why': why},
+            R.ok(rule, '%s|%s:%s|auto' % (owner_type(s.owner), s.kind, short(d, 50, canon=s.kind != 'dep')), detail={'op': s.opname, 'operand': d[:200], 'why': why},
                  where=s.body.where(s.bb), nontrivial=True)
             continue
-        key = 'singular|%s|%s:%s' % (owner_type(s.owner), s.kind, short(d))
+        key = 'singular|%s|%s:%s' % (owner_type(s.owner), s.kind, short(d, canon=s.kind != 'dep'))
         groups.setdefault(key, []).append((s, d, why))
     for key, lst in sorted(groups.items()):
         s, d, why = lst[0]
